@@ -84,6 +84,15 @@ type TrList struct{ P, Q int64 }
 type TrWrap struct{ V string }
 type TrWire struct{ W string }
 type TrKey struct{ A, B string }
+type TrBag struct {
+	K string
+	N int64
+}
+type TrBagWire struct {
+	K string
+	N int64
+}
+type TrRaw struct{ B []byte }
 
 type Shape interface{ isShape() }
 type Circle struct{ R int64 }
@@ -117,6 +126,9 @@ var zoo = []zooType{
 	{14, reflect.TypeOf(TrWrap{}), "(st 14)", []string{"s"}},
 	{15, reflect.TypeOf(TrWire{}), "(st 15)", []string{"s"}},
 	{16, reflect.TypeOf(TrKey{}), "(st 16)", []string{"s", "s"}},
+	{17, reflect.TypeOf(TrBag{}), "(st 17)", []string{"s", "i64"}},
+	{18, reflect.TypeOf(TrBagWire{}), "(st 18)", []string{"s", "i64"}},
+	{19, reflect.TypeOf(TrRaw{}), "(st 19)", []string{"x"}},
 	{20, reflect.TypeOf(Circle{}), "(st 20)", []string{"i64"}},
 	{21, reflect.TypeOf(Square{}), "(st 21)", []string{"s", "(pt i)"}},
 	{30, reflect.TypeOf((*Shape)(nil)).Elem(), "(if 30)", nil},
@@ -696,6 +708,13 @@ func transformFuncs(kind int) (interface{}, interface{}) {
 				}
 				return TrKey{a, b}, nil
 			}
+	case 7:
+		return func(x TrBag) (TrBagWire, error) { return TrBagWire{x.K, x.N}, nil },
+			func(w TrBagWire) (TrBag, error) { return TrBag{w.K, w.N}, nil }
+	case 8:
+		// deliberately no copying: the transform passes the slice through
+		return func(x TrRaw) ([]byte, error) { return x.B, nil },
+			func(b []byte) (TrRaw, error) { return TrRaw{b}, nil }
 	}
 	panic("unknown transform kind")
 }
